@@ -244,6 +244,20 @@ for path, v, want in GOOD:
         got = getattr(getattr(r[1], path[0]), path[1])
         if got != want:
             fail("valid", f"{'.'.join(map(str, path))} = {v!r} is loaded as {got!r}, not exactly")
+import datetime as _dtm
+for field_ in ("valid_from", "valid_until"):
+    for text_, want_ in (("2017-02-02T00:00:00+02:00", _dtm.datetime(2017, 2, 1, 22, 0, tzinfo=_dtm.timezone.utc)), ("2017-02-02T00:00:00-05:00", _dtm.datetime(2017, 2, 2, 5, 0, tzinfo=_dtm.timezone.utc)),
+                         ("2017-02-02T00:00:00+05:30", _dtm.datetime(2017, 2, 1, 18, 30, tzinfo=_dtm.timezone.utc)), ("2017-02-02T00:00:00+00:00", _dtm.datetime(2017, 2, 2, tzinfo=_dtm.timezone.utc)),
+                         ("2017-02-02T00:00:00Z", _dtm.datetime(2017, 2, 2, tzinfo=_dtm.timezone.utc)), (_dtm.datetime(2017, 2, 2, 0, 0, tzinfo=_dtm.timezone(_dtm.timedelta(hours=-8))), _dtm.datetime(2017, 2, 2, 8, 0, tzinfo=_dtm.timezone.utc))):
+        c = copy.deepcopy(BASE)
+        c["keys"]["ksk_current"][field_] = text_
+        if field_ == "valid_until":
+            c["keys"]["ksk_current"]["valid_from"] = "2010-01-01T00:00:00+00:00"
+        r = load(c)
+        count("valid-value")
+        got_ = getattr(r[1].ksk_keys["ksk_current"], field_) if r[0] == "ok" else None
+        if r[0] != "ok" or got_ is None or (got_ if got_.tzinfo else got_.replace(tzinfo=_dtm.timezone.utc)) != want_:
+            fail("valid", f"keys.ksk_current.{field_} = {text_} (the instant {want_.isoformat()}) is {'rejected (' + r[2] + ')' if r[0] != 'ok' else 'loaded as ' + str(got_)}", {"field": field_, "text": str(text_)})
 for tag_ in (1, 65535, 65534, 32768):
     c = copy.deepcopy(BASE)
     c["keys"]["ksk_current"]["key_tag"] = tag_
